@@ -8,6 +8,7 @@ def M(name, props, *edits, benign=False):
 FE = "src/evaluator/flop_exhaustive.rs"
 CP = "src/hand_range/card_pair.rs"
 TK = "src/hand_range/hand_range_token.rs"
+HRS = "src/hand_range/hand_range.rs"
 RK = "src/card/rank.rs"
 ST = "src/card/suit.rs"
 CD = "src/card/card.rs"
@@ -66,6 +67,17 @@ MUTANTS = [
     M("c15-cell-field", ["C15"], (FE, "pub struct FlopExhaustiveEvaluator {\n    board: [Option<Card>; 5],", "pub struct FlopExhaustiveEvaluator {\n    #[allow(dead_code)]\n    hits: std::cell::Cell<u32>,\n    board: [Option<Card>; 5],"), (FE, "        Self {\n            board: board.clone(),", "        Self {\n            hits: std::cell::Cell::new(0),\n            board: board.clone(),")),
     M("c15-rc-field", ["C15"], (FE, "    players: Vec<HandRange>,\n    turn_from: u8,", "    players: std::rc::Rc<Vec<HandRange>>,\n    turn_from: u8,"), (FE, "            players: players.clone(),", "            players: std::rc::Rc::new(players.clone()),")),
     M("benign-c15-parser-regex-cache", ["C15"], (TK, "        let single_card_pair_regex =\n            Regex::new(", "        static CACHE: std::sync::OnceLock<Regex> = std::sync::OnceLock::new();\n        let _ = &CACHE;\n        let single_card_pair_regex =\n            Regex::new("), benign=True),
+    M("c09-no-ascii-card", ["C09"], (CD, "if v.len() == 2 && v.is_ascii() {", "if v.len() == 2 {")),
+    M("c09-no-ascii-pair", ["C09"], (CP, "        if !value.is_ascii() {\n            return Err(Self::Err::InvalidCardStr(value.to_string()));\n        }\n", "")),
+    M("c09-order-guard-removed", ["C09"], (TK, "                if top <= bottom {", "                if top <= bottom || true {")),
+    M("c09-order-guard-weakened", ["C09"], (TK, "                if high < kicker_bottom {", "                if high <= kicker_bottom {")),
+    M("c09-regex-nonascii", ["C09"], (TK, 'Regex::new(r"^[AKQJT98765432]{2}[so](:', 'Regex::new(r"^[AKQJT98765432é]{2}[so](:')),
+    M("c09-slice-beyond", ["C09"], (TK, "                        parse_probability(&s[5..]),", "                        parse_probability(&s[6..]),")),
+    M("c09-new-unwrap", ["C09"], (HRS, "            if let Ok(token) = HandRangeToken::from_str(h) {", "            if let Ok(token) = Ok::<HandRangeToken, ()>(HandRangeToken::from_str(h).unwrap()) {")),
+    M("c09-probability-slice", ["C09"], (TK, '    if value.len() >= 1 && value.starts_with(":") {', '    if value.len() >= 1 {')),
+    M("c09-range-unordered", ["C09"], (HRS, "for kicker_rank in RankRange::inclusive(high_rank, Rank::Deuce) {", "for kicker_rank in RankRange::inclusive(high_rank, high_rank.prev().unwrap_or(Rank::Deuce)) {")),
+    M("benign-c09-unanchored-end", ["C09"], (TK, 'Regex::new(r"^[AKQJT98765432]{2}(:[01](\\.[0-9]+)?)?$").unwrap();', 'Regex::new(r"^[AKQJT98765432]{2}(:[01](\\.[0-9]+)?)?").unwrap();'), benign=True),
+    M("benign-c09-is-char-boundary-free", ["C09"], (CD, "if v.len() == 2 && v.is_ascii() {", "if v.is_ascii() && v.len() == 2 {"), benign=True),
     M("c08-recursion", ["C08"], (FE, """        loop {
             if let Some(showdown) = self.next_deal()? {
                 return Some(showdown);
